@@ -51,6 +51,7 @@ type Ctx struct {
 	Conform  []ConformRec // instr workers: deterministic cases to re-run on the light build
 	replay   bool
 	skipTo   int64
+	NoShard  bool // Mine() accepts everything (the check shards by its own rule)
 }
 
 type ConformRec struct {
@@ -66,6 +67,9 @@ func (c *Ctx) Mine() bool {
 	c.idx++
 	if i < c.skipTo {
 		return false
+	}
+	if c.NoShard {
+		return true
 	}
 	return c.N <= 1 || int(i%int64(c.N)) == c.Shard
 }
@@ -371,6 +375,11 @@ func orchestrate(args []string) {
 	if replay != "" {
 		doReplay(def, replay)
 		return
+	}
+	if old, _ := filepath.Glob(filepath.Join(verifHome(), "replays", id+"-*.json")); len(old) > 0 {
+		for _, f := range old {
+			os.Remove(f) // replay artefacts of earlier runs of this check
+		}
 	}
 	start := time.Now()
 	budget := 150 * time.Second
